@@ -3,6 +3,7 @@ import Siot.Lemmas.SyncExchange
 import Siot.Gen.Sync
 import Siot.Lemmas.SyncLoop
 import Siot.Lemmas.SyncTree
+import Siot.Lemmas.SyncSendTree
 import Siot.Gen.SyncLoop
 /-
 C02 — Linked instances converge on the shared device tree.
@@ -22,7 +23,7 @@ as long as the link is reported up, local writes are forwarded exactly while it 
 always has an upstream connection or a reconnection pending (`c02_loop_*`).
 -/
 namespace Siot.Sync
-open Siot Siot.Store
+open Siot Siot.Store Siot.Export
 
 /-- **C02 (no accepted write is lost or reverted).** Start from any two reachable stores. After a
 catch-up pass for any node — whatever the tree, the hashes, the wall clock readings, however deep the
@@ -234,6 +235,76 @@ example :
     rcases hbelow m hm with rfl | rfl | rfl | rfl <;> decide
   · intro m hm
     rcases hbelow m hm with rfl | rfl | rfl | rfl <;> decide
+
+/-- **C02 (a subtree the upstream instance does not have yet arrives whole).** The catch-up pass meets a local node
+that upstream lacks — the node itself (`syncNode`, nothing returned upstream) or a child (`syncChildren`, no upstream child
+of that id) — and calls `sendNodesRemote` for it: `SendNode` for the node, then, recursively, for every child the local
+store lists as not deleted. Let the local store be a forest of stored rows with ordinary ids (`SrcOk`), `e` the local edge
+sent below `P` (its own parent, or the upstream root for a root device), `P` not inside the subtree, and let the upstream store
+know none of the ids of the live subtree below `e` (`Fresh`: no edge, no point). Then with the budget in use (2^|edges| + 1,
+which `belowD_depth` shows to exceed every depth of a forest): nothing fails, the local store is untouched, EVERY node of
+the live subtree — at any depth — holds upstream exactly the points it holds locally, every edge of it exactly the local
+edge points (plus the mark "not deleted", stamped with a reading of the upstream clock, where the local edge carries no
+deletion mark), and nothing else upstream changes. So after the transfer the two copies of the subtree agree point for
+point; together with `c02_pass_converges_where_hash_is_faithful` (equal trees) this covers both cases the pass
+distinguishes. Not covered: ids already known upstream somewhere else (mirrors, moved nodes). -/
+theorem c02_missing_subtree_is_sent (wall : Int → Int) (s : Pair) (hs : SrcOk s.a) (e : Edge) (P : Bytes) (he : e ∈ s.a.edges)
+    (hP1 : P ≠ []) (hP2 : P ≠ noneS) (hP3 : P ≠ rootS) (hPb : ¬ Below (liveK s.a) e.down P)
+    (hfresh : ∀ m, Below (liveK s.a) e.down m → Fresh s.b m) :
+    (toRemote wall s { neOf s.a e with parent := P }).a = s.a ∧
+    (∀ m, Below (liveK s.a) e.down m → ptsOf (toRemote wall s { neOf s.a e with parent := P }).b m = ptsOf s.a m) ∧
+    (∃ k, eptsOf (toRemote wall s { neOf s.a e with parent := P }).b P e.down = sentE (eptsOf s.a e.up e.down) (wall k)) ∧
+    (∀ c ∈ liveEdges s.a, Below (liveK s.a) e.down c.up →
+      ∃ k, eptsOf (toRemote wall s { neOf s.a e with parent := P }).b c.up c.down = sentE (eptsOf s.a c.up c.down) (wall k)) ∧
+    (∀ y, ¬ Below (liveK s.a) e.down y → Same s.b (toRemote wall s { neOf s.a e with parent := P }).b y) :=
+  toRemote_sent wall s hs e P he hP1 hP2 hP3 hPb hfresh
+
+/-- the child case of `syncChildren` is the instance `P = e.up` (the record sent is the one `getNodes` returned) -/
+example (s : Pair) (e : Edge) : ({ neOf s.a e with parent := e.up } : NE) = neOf s.a e := rfl
+
+/-- non-vacuity: a local store R → a → b (a point on each node, a deletion mark on each edge) and an empty upstream store
+    with root "x"; the subtree of `a` is sent below "x" -/
+example :
+    let tomb : Point := { type := tombstoneT, key := zeroKey, time := 3 }
+    let src : St := {
+      nodePts := [([97], { type := [1], key := zeroKey, time := 5, value := 1 }), ([98], { type := [1], key := zeroKey, time := 6, value := 2 })]
+      edges := [⟨[82], [97], [100], 0⟩, ⟨[97], [98], [100], 0⟩]
+      edgePts := [(([82], [97]), tomb), (([97], [98]), tomb)]
+      root := [82] }
+    let dst : St := { root := [120] }
+    SrcOk src ∧ (⟨[82], [97], [100], 0⟩ : Edge) ∈ src.edges ∧ ¬ Below (liveK src) [97] [120] ∧
+      ∀ m, Below (liveK src) [97] m → Fresh dst m := by
+  intro tomb src dst
+  have hK : liveK src = [([82], [97], [100]), ([97], [98], [100])] := by decide
+  have hbelow : ∀ m, Below (liveK src) [97] m → m = [97] ∨ m = [98] := by
+    intro m hm
+    obtain ⟨d, hd⟩ := hm
+    induction hd with
+    | refl => exact Or.inl rfl
+    | step k d hk _ ih =>
+      rw [hK] at hk
+      simp only [List.mem_cons, List.not_mem_nil, or_false] at hk
+      rcases hk with rfl | rfl
+      · rcases ih with h | h <;> exact absurd h (by decide)
+      · exact Or.inr rfl
+  refine ⟨⟨⟨⟨fun b => if b = [82] then 0 else if b = [97] then 1 else 2, ?_⟩, by decide⟩, ?_, ?_⟩, by decide, ?_, ?_⟩
+  · intro k hk
+    have : k = ([82], [97], [100]) ∨ k = ([97], [98], [100]) := by simpa [shapes, src, shape] using hk
+    rcases this with rfl | rfl <;> decide
+  · intro f hf
+    have : f = ⟨[82], [97], [100], 0⟩ ∨ f = ⟨[97], [98], [100], 0⟩ := by simpa [src] using hf
+    rcases this with rfl | rfl
+    · exact ⟨⟨by unfold StoredRows; decide, by unfold IdUnique; decide, by decide⟩, ⟨by unfold StoredRows; decide, by unfold IdUnique; decide, by decide⟩, by decide, by decide⟩
+    · exact ⟨⟨by unfold StoredRows; decide, by unfold IdUnique; decide, by decide⟩, ⟨by unfold StoredRows; decide, by unfold IdUnique; decide, by decide⟩, by decide, by decide⟩
+  · intro f hf
+    have : f = ⟨[82], [97], [100], 0⟩ ∨ f = ⟨[97], [98], [100], 0⟩ := by simpa [src] using hf
+    rcases this with rfl | rfl <;> decide
+  · intro h
+    rcases hbelow _ h with h | h <;> exact absurd h (by decide)
+  · intro m hm
+    rcases hbelow m hm with rfl | rfl
+    · exact ⟨(fun _ h => nomatch h), rfl, (fun _ => rfl), (by decide)⟩
+    · exact ⟨(fun _ h => nomatch h), rfl, (fun _ => rfl), (by decide)⟩
 
 /-- tie A: syncNode / sendNodesRemote / sendNodesLocal have the shape the model transcribes (after the repair:
 children are listed with deleted ones included; the undelete step is for the local root device only). -/
